@@ -1,0 +1,75 @@
+//go:build verif
+
+package writecache
+
+import (
+	oid "github.com/nspcc-dev/neofs-sdk-go/object/id"
+)
+
+// VerifStopScheduler stops the background flush loop and restarts the flush
+// workers only: batches are then fed by VerifSendFlush instead of the timer
+// driven scheduler (verification harness only).
+func VerifStopScheduler(c Cache) {
+	cc := c.(*cache)
+	close(cc.closeCh)
+	cc.wg.Wait()
+	cc.closeCh = make(chan struct{})
+	for i := range cc.workersCount {
+		cc.wg.Go(func() { cc.flushWorker(i) })
+	}
+}
+
+// VerifSendFlush does what the scheduler does with a cut batch: marks the
+// addresses as being flushed and hands the batch to a flush worker. Returns
+// once a worker has taken the batch.
+func VerifSendFlush(c Cache, addrs []oid.Address) {
+	cc := c.(*cache)
+	for _, a := range addrs {
+		cc.flushObjs.Store(a, struct{}{})
+	}
+	cc.flushCh <- addrs
+}
+
+// VerifCounterAddrs returns the addresses the counters account.
+func VerifCounterAddrs(c Cache) []oid.Address {
+	cc := c.(*cache)
+	var res []oid.Address
+	for a := range cc.objCounters.Map() {
+		res = append(res, a)
+	}
+	return res
+}
+
+// VerifInflight returns the addresses marked as being flushed.
+func VerifInflight(c Cache) []oid.Address {
+	cc := c.(*cache)
+	var res []oid.Address
+	cc.flushObjs.Range(func(k, _ any) bool {
+		res = append(res, k.(oid.Address))
+		return true
+	})
+	return res
+}
+
+// VerifTakeFlushErr reports whether a flush worker signalled an error to the
+// scheduler and consumes the signal.
+func VerifTakeFlushErr(c Cache) bool {
+	cc := c.(*cache)
+	select {
+	case <-cc.flushErrCh:
+		return true
+	default:
+		return false
+	}
+}
+
+// VerifFileAddrs lists the addresses of the cache's own files without reading them.
+func VerifFileAddrs(c Cache) ([]oid.Address, error) {
+	cc := c.(*cache)
+	var res []oid.Address
+	err := cc.fsTree.IterateAddresses(func(addr oid.Address) error {
+		res = append(res, addr)
+		return nil
+	}, true)
+	return res, err
+}
